@@ -49,6 +49,7 @@ class Entry:
         self.d1 = kw.pop('d1', False)   # generic D1: split or-patterns that carry a guard
         self.d8 = kw.pop('d8', False)   # generic D8: closure parameter `_` -> `_x`
         self.with_scope = kw.pop('with_scope', None)   # D17: text of context.rs holding the macro definition -> expand with_scope!
+        self.mut_self = kw.pop('mut_self', False)     # generic D25: `fn f(mut self, ..)` -> `fn f(self, ..) { let mut oq3_self = self; .. }`
         self.string_eq = kw.pop('string_eq', None)   # generic D22: `NAME == "lit"` on a String local -> `NAME.as_str() == "lit"`
         self.for_iter = kw.pop('for_iter', None)     # generic D18: names of iterator locals whose `for` loops become loop/match next
         self.destruct = kw.pop('destruct', False)    # generic D21: destructuring assignment
@@ -524,6 +525,11 @@ class Unit:
             if n8:
                 self.desugar_log.append(('D8', '%s: %d closure parameter(s) `_` named' % (e.qualname, n8)))
         sig, body = split_signature(text)
+        if e.mut_self and re.search(r'\(\s*mut\s+self\b', sig):
+            sig = re.sub(r'\(\s*mut\s+self\b', '(self', sig, count=1)
+            b0 = body.index('{')
+            body = body[:b0 + 1] + '\n        let mut oq3_self = self;' + re.sub(r'(?<![\w.])self\b', 'oq3_self', body[b0 + 1:])
+            self.desugar_log.append(('D25', '%s: `mut self` parameter -> `self` rebound to a mutable local at the top of the body' % e.qualname))
         sig = _widen_vis(sig)
         if e.ret:
             sig, _ = name_return(sig, e.ret)
